@@ -6,7 +6,12 @@ S→I  every graph (N nodes; per node an extends and an include edge to any node
      the fallback prefix, or a missing template; include placed in body / block / component body) is registered as
      one batch (both orders); oracle: accepted iff the specification accepts, error class among the applicable ones;
      every node of an accepted graph is rendered in a process that is watched for aborts and hangs, and must give
-     the text of the declarative render.  Chains of depth 32 are added explicitly."""
+     the text of the declarative render.  Chains of depth 32 are added explicitly.
+     MC_IncGraph: sets of include targets per template (diamonds, back edges behind explored siblings).
+     MC_Recur: call graphs mixing includes and component calls (recursion that registration does not refuse): the
+     specification's call stack stays bounded because the component depth counter is carried across includes
+     (MC_Recur_reset.cfg: without that TLC finds the unbounded stack); the engine must end in the same text or in
+     an error value on each of the 1250 (graph, entry) pairs."""
 import json
 import vp, registry_glue as G
 
@@ -60,9 +65,42 @@ def run(tier):
     for name, tpls, entry in (("extends-32", ext, "t32"), ("include-32", inc, "i0"), ("component-include-16", mix, "m0")):
         jobs.append({"cfg": {}, "steps": [{"op": "add", "tpls": tpls}, {"op": "render", "name": entry}]})
         meta.append((-1, name))
+    # recursion through component calls and includes (MC_Recur): accepted graphs must end in text or an error value
+    rr_ = vp.tlc("MC_Recur", "MC_Recur", workers=4, timeout=600, name="c11-recur")
+    C.add_tlc(rr_, "MC_Recur (call stack with the component depth counter carried across includes; InvBounded, InvOutcome)")
+    rvecs = rr_.tags["VEC"]
+    def op(o):
+        return "" if o == "none" else ("{% include '" + o + "' %}" if o in ("A", "B") else "{{<" + o + "/>}}")
+    for ri_, v in enumerate(rvecs):
+        g = v["g"]
+        tpls = [["A", "A(" + op(g["A"]) + "){% component c() %}[c" + op(g["c"]) + "]{% endcomponent c %}"],
+                ["B", "B(" + op(g["B"]) + "){% component d() %}[d" + op(g["d"]) + "]{% endcomponent d %}"]]
+        jobs.append({"cfg": {}, "steps": [{"op": "add", "tpls": tpls}] + ([{"op": "render", "name": v["entry"]}] if v["res"] != "refused" else []) + [{"op": "names"}]})
+        meta.append((-1000000 - ri_, v["entry"]))
     res = vp.run_jobs(jobs, tag="c11", timeout=3000, may_abort=True)
     for (vi, names), rr, job in zip(meta, res, jobs):
         C.count()
+        if vi <= -1000000:
+            v = rvecs[-1000000 - vi]
+            key = {"recursion_graph": v["g"], "entry": v["entry"]}
+            if any(o != "none" for o in v["g"].values()):
+                C.nontrivial(["recur", v["g"], v["entry"]])
+            if any(x.get("panic") or x.get("abort") for x in rr):
+                C.violation(dict(key, kind="abort"), "process died / panicked rendering %s of %s (specification: %s): %s" % (
+                    v["entry"], v["g"], v["res"], [x for x in rr if x.get("panic") or x.get("abort")][:1]), {"job": job, "result": rr})
+            elif rr[0].get("ok") != (v["res"] != "refused"):
+                C.violation(dict(key, kind="acceptance"), "call graph %s: engine %s, specification %s" % (v["g"], "accepts" if rr[0].get("ok") else "refuses (%s)" % rr[0].get("kind"), v["res"]),
+                            {"job": job, "got": rr[0]})
+            elif v["res"] == "refused":
+                if rr[0].get("kind") != "CircularInclude" or rr[-1].get("names"):
+                    C.violation(dict(key, kind="class"), "cyclic include graph %s refused with %s, templates left: %s" % (v["g"], rr[0].get("kind"), rr[-1].get("names")), {"job": job})
+            elif v["res"] == "text":
+                if not rr[1].get("ok") or rr[1].get("out") != v["text"]:
+                    C.violation(dict(key, kind="text"), "call graph %s: render of %s gives %r, specification %r" % (
+                        v["g"], v["entry"], rr[1].get("out") if rr[1].get("ok") else "error: " + (rr[1].get("msg") or rr[1].get("disp", ""))[:100], v["text"]), {"job": job})
+            elif rr[1].get("ok"):
+                C.violation(dict(key, kind="noerr"), "call graph %s has a call cycle reachable from %s but the engine renders %r" % (v["g"], v["entry"], rr[1].get("out")), {"job": job})
+            continue
         if vi <= -2:
             v = ivecs[-2 - vi]
             C.nontrivial(["inc", v["g"]])
